@@ -220,8 +220,10 @@ fn fire(log: &mut SinkLog, name: &'static str) {
     *log.fired.entry(name).or_insert(0) += 1;
 }
 
-impl Write for SimSink {
-    fn write(&mut self, buf: &[u8]) -> io::Result<usize> {
+impl SimSink {
+    /// One write call offering the concatenation of `parts` (one part for `write`, the gather list for
+    /// `write_vectored`). The decision is taken on the total length; only the accepted prefix is copied.
+    fn write_parts(&mut self, parts: &[&[u8]]) -> io::Result<usize> {
         if let Some(h) = &self.yield_hook {
             h();
         }
@@ -230,7 +232,8 @@ impl Write for SimSink {
         let mut log = self.log.lock().unwrap();
         let op = log.cur_op;
         let offset = log.accepted_total;
-        let len = buf.len() as u32;
+        let total: usize = parts.iter().map(|p| p.len()).sum();
+        let len = total.min(u32::MAX as usize) as u32;
 
         // healing
         if !self.healed {
@@ -299,7 +302,7 @@ impl Write for SimSink {
             }
         }
 
-        let mut n = buf.len();
+        let mut n = total;
         match fault {
             Some(Fault::ErrOnce(k)) => {
                 ev(&mut log, Outcome::Err(k));
@@ -313,7 +316,7 @@ impl Write for SimSink {
                 return Err(k.make());
             }
             Some(Fault::Zero) => {
-                if !buf.is_empty() {
+                if total != 0 {
                     ev(&mut log, Outcome::Zero);
                     fire(&mut log, "ok_zero");
                     return Ok(0);
@@ -351,14 +354,28 @@ impl Write for SimSink {
                 fire(&mut log, "short_write_at_death_offset");
             }
         }
-        if !log.counting_only {
-            log.bytes.extend_from_slice(&buf[..n]);
-        } else {
-            log.rle.push(&buf[..n]);
+        let mut left = n;
+        for p in parts {
+            if left == 0 {
+                break;
+            }
+            let take = left.min(p.len());
+            if !log.counting_only {
+                log.bytes.extend_from_slice(&p[..take]);
+            } else {
+                log.rle.push(&p[..take]);
+            }
+            left -= take;
         }
         log.accepted_total += n as u64;
         ev(&mut log, Outcome::Accepted(n as u32));
         Ok(n)
+    }
+}
+
+impl Write for SimSink {
+    fn write(&mut self, buf: &[u8]) -> io::Result<usize> {
+        self.write_parts(&[buf])
     }
 
     fn flush(&mut self) -> io::Result<()> {
@@ -373,12 +390,9 @@ impl Write for SimSink {
         if bufs.len() <= 1 || total == 0 {
             return self.write(bufs.first().map(|b| &b[..]).unwrap_or(&[]));
         }
-        let mut flat = Vec::with_capacity(total);
-        for b in bufs {
-            flat.extend_from_slice(b);
-        }
         self.log.lock().unwrap().vectored_calls += 1;
-        self.write(&flat)
+        let parts: Vec<&[u8]> = bufs.iter().map(|b| &b[..]).collect();
+        self.write_parts(&parts)
     }
 }
 
